@@ -7,6 +7,7 @@ use std::io::Read;
 
 mod c01;
 mod c04;
+mod c05;
 mod c12;
 mod c16;
 mod c17;
@@ -41,6 +42,10 @@ fn main() {
         "c17_remap" => c17::remap(&v),
         "c01_added_lines" => c01::added_lines(&v),
         "c04_split" => c04::split(&v),
+        "c05_ranges" => c05::ranges(&v),
+        "c05_upsert" => c05::upsert(&v),
+        "c05_state" => c05::state(&v),
+        "c05_compress" => c05::compress(&v),
         "c12_profile" => c12::profile(&v),
         "c16_tokenize" => c16::tokenize(&v),
         "c16_lines" => c16::lines(&v),
